@@ -30,6 +30,8 @@ pub enum Call {
     Inc,
     SetPosition,
     Dec,
+    /// ProgressBar::reset() (position part only): must not hand out a fresh burst
+    Reset,
 }
 
 #[derive(Debug, Clone, Serialize, Deserialize)]
@@ -131,6 +133,7 @@ fn run_rate(c: &RateCase) -> CaseResult {
                     b.pos += 2;
                     b.pb.set_position(b.pos);
                 }
+                Call::Reset => b.pb.tick(),
                 Call::Dec => {
                     b.pos = b.pos.saturating_sub(1).max(1);
                     let cur = b.pb.position();
@@ -259,6 +262,14 @@ fn run_pos(c: &PosCase) -> CaseResult {
     for (i, (gap, call)) in c.gaps.iter().enumerate() {
         clock::advance_ns(gap_ns(*gap, 1000).min(50_000_000));
         let now = clock::now_ns();
+        if matches!(call, Call::Reset) {
+            // reset() redraws by itself (not a position-triggered redraw); the bucket must not be refilled by it
+            pb.reset();
+            pos = 0;
+            // (the bar was redrawn just now: the staleness clock restarts)
+            last_tick = Some(clock::now_ns());
+            continue;
+        }
         let before = vt.nflush();
         match call {
             Call::Dec if pos > 0 => {
@@ -297,6 +308,7 @@ fn run_pos(c: &PosCase) -> CaseResult {
     v.nontrivial = dropped > 0 && passed > 10;
     v.label_if(dropped > 0, "update_throttled");
     v.label_if(passed > 10, "burst_exhausted");
+    v.label_if(c.gaps.iter().any(|(_, c)| matches!(c, Call::Reset)), "reset_interleaved");
     Ok(v)
 }
 
@@ -315,7 +327,7 @@ pub fn property() -> Property {
                 name: "frames",
                 rule: "refresh rate from {1,3,7,20,30,60,255} or 1..=255; standalone term_like_with_hz, first bar of a MultiProgress, or two bars of a MultiProgress alternating; 30-400 (thorough 2000) ordinary requests (tick/set_message/set_length/inc/set_position/dec with monotone payloads) at gaps from {0, ns, <1 ms, k*interval +-1 ns for k<25, interval/2, ms, s, hours}; window law via the running minimum of k*1e9 - R*t_k, staleness law per request, every painted frame compared with the latest state of all drawn bars; non-trivial = skipped and painted draws and a gap at an interval multiple",
                 strategy: rate_strategy,
-                cases: |t| t.pick(300, 48_000),
+                cases: |t| t.pick(1_500, 48_000),
                 run: run_rate,
                 signature: no_signature,
                 essential: &["skipped_draw", "burst_exhausted", "gap_at_interval_multiple", "refill_after_long_gap", "multi_progress_target"],
@@ -327,13 +339,13 @@ pub fn property() -> Property {
                 rule: "30-400 (thorough 2000) inc/set_position/dec calls on an unlimited target (every position-triggered tick paints) at gaps from 0 to 50 ms: at most 10 + T/1ms + 1 redraws per window, an update >= 1 ms after the last one is redrawn, position() exact, the redraw sees the latest position",
                 strategy: |t| {
                     let n = t.pick(400, 2000);
-                    let call = prop_oneof![6 => Just(Call::Inc), 1 => Just(Call::SetPosition), 1 => Just(Call::Dec)];
+                    let call = prop_oneof![12 => Just(Call::Inc), 2 => Just(Call::SetPosition), 2 => Just(Call::Dec), 1 => Just(Call::Reset)];
                     proptest::collection::vec((gap_strategy(), call), 30..n).prop_map(|gaps| PosCase { gaps }).boxed()
                 },
-                cases: |t| t.pick(200, 32_000),
+                cases: |t| t.pick(1_000, 32_000),
                 run: run_pos,
                 signature: no_signature,
-                essential: &["update_throttled", "burst_exhausted"],
+                essential: &["update_throttled", "burst_exhausted", "reset_interleaved"],
                 workers: w,
                 decode: None,
             }),
